@@ -867,6 +867,9 @@ func (req *IdpAuthnRequest) MakeAssertionEl() error {
 		return err
 	}
 
+	// a signature left behind by an earlier call (for example one that failed
+	// later on, at encryption) must not become part of what is signed now
+	req.Assertion.Signature = nil
 	assertionEl := req.Assertion.Element()
 
 	signedAssertionEl, err := signingContext.SignEnveloped(assertionEl)
